@@ -40,7 +40,7 @@ def gaussWeights (n : ℕ) (u : ℕ → ℚ) : Array ℚ :=
   let wmax := wf.foldl (fun a b => if a < b then b else a) 0.0
   if wmax == 0.0 then wf.map fun _ => (0 : ℚ) else wf.map fun w => quant 80 (floatToRat (w / wmax))
 
-def rootF (s : ℚ) : ℚ := quant 48 (floatToRat (Float.sqrt (ratToFloat s)))
+def rootF (s : ℚ) : ℚ := quant 64 (floatToRat (Float.sqrt (ratToFloat s)))
 
 def parseCK? : String → Option CKernel
   | "epanechnikov" => some .epanechnikov
